@@ -129,8 +129,28 @@ def resolve_from_import(repo, rel, name):
     return None
 
 
-def _expand_call(h, is_method, call, tag):
-    """-> (list of statements, return expression or None)"""
+def _ends_in_exit(stmts):
+    """every path through `stmts` ends in return / raise"""
+    if not stmts:
+        return False
+    last = stmts[-1]
+    if isinstance(last, (ast.Return, ast.Raise)):
+        return True
+    if isinstance(last, ast.If):
+        return _ends_in_exit(last.body) and _ends_in_exit(last.orelse)
+    if isinstance(last, (ast.With, ast.AsyncWith)):
+        return _ends_in_exit(last.body)
+    if isinstance(last, ast.Try):
+        return (_ends_in_exit(last.finalbody) or (
+            _ends_in_exit(last.body if not last.orelse else last.orelse)
+            and all(_ends_in_exit(h_.body) for h_ in last.handlers)))
+    return False
+
+
+def _expand_call(h, is_method, call, tag, tail=False):
+    """-> (list of statements, return expression or None); with `tail` the
+    body keeps all its return statements (the call is the operand of a
+    ``return``: the helper's exits are the caller's exits)"""
     params = [a.arg for a in h.args.args]
     if is_method and params:
         params = params[1:]
@@ -186,7 +206,10 @@ def _expand_call(h, is_method, call, tag):
             body[0].value.value, str):
         body = body[1:]
     ret = None
-    if body and isinstance(body[-1], ast.Return):
+    if tail:
+        if not _ends_in_exit(body):
+            body.append(ast.Return(value=ast.Constant(value=None)))
+    elif body and isinstance(body[-1], ast.Return):
         ret = body[-1].value
         body = body[:-1]
     ren = _Rename(mapping)
@@ -204,6 +227,14 @@ def _expand_call(h, is_method, call, tag):
                 n.col_offset = 0
                 n.end_col_offset = 0
     return pre + body, ret
+
+
+def _is_tail_helper(h):
+    a = h.args
+    if a.vararg or a.kwarg or a.kwonlyargs or a.posonlyargs:
+        return False
+    return not any(isinstance(n, (ast.Yield, ast.YieldFrom, ast.Global,
+                                  ast.Nonlocal)) for n in walk(h))
 
 
 def inline_helpers(repo, rel, func, depth=2, keep=()):
@@ -232,6 +263,19 @@ def inline_helpers(repo, rel, func, depth=2, keep=()):
             done = False
             if call is not None and level < depth:
                 hh = _helper_of(repo, rel, cls, call)
+                if hh is not None and hh[0].name != func.name \
+                        and hh[0].name not in keep and kind == "return" \
+                        and not _is_simple_helper(hh[0]) \
+                        and _is_tail_helper(hh[0]):
+                    # `return helper(...)`: the helper's body, with all its
+                    # exits, takes the place of the statement
+                    counter[0] += 1
+                    exp = _expand_call(hh[0], hh[1], call,
+                                       f"{hh[0].name.strip('_')}{counter[0]}",
+                                       tail=True)
+                    if exp is not None:
+                        out += process(exp[0], level + 1)
+                        continue
                 if hh is not None and hh[0].name != func.name \
                         and hh[0].name not in keep \
                         and _is_simple_helper(hh[0]):
